@@ -96,4 +96,47 @@ theorem roundHalfEven_le {q : Rat} {N : Int} (h : q ≤ N) : roundHalfEven q ≤
       · exact hle
       · exact key (by linarith [not_lt.mp h1])
 
+
+/-- the calendar month with index `M` (1970-01 = 0) -/
+def yearOf (M : Int) : Int := 1970 + M / 12
+def monthOf (M : Int) : Nat := (M % 12).toNat + 1
+
+theorem truncInt_nonneg {q : Rat} (h : 0 ≤ q) : truncInt q = q.floor := by
+  unfold truncInt; simp [h]
+
+/-- integer final lag `M + 1`, `M ≥ 0`: the last day of month `M` -/
+theorem addMonthsLag_int (M : Int) (hM : 0 ≤ M) :
+    addMonthsLag ((M : Rat) + 1) = ⟨yearOf M, monthOf M, dim (yearOf M) (monthOf M)⟩ := by
+  have hcast : (M : Rat) + 1 = ((M + 1 : Int) : Rat) := by push_cast; ring
+  have hnn : (0 : Rat) ≤ ((M + 1 : Int) : Rat) := by exact_mod_cast (by omega : 0 ≤ M + 1)
+  unfold addMonthsLag
+  simp only [hcast, floor_intCast, sub_self, truncInt_nonneg hnn, beq_self_eq_true, if_true]
+  have hm : M + 1 - 1 = M := by omega
+  simp only [hm, one_mul]
+  have hd : roundHalfEven ((dim (1970 + M / 12) ((M % 12).toNat + 1) : Nat) : Rat)
+      = ((dim (1970 + M / 12) ((M % 12).toNat + 1) : Nat) : Int) := by
+    have := roundHalfEven_intCast ((dim (1970 + M / 12) ((M % 12).toNat + 1) : Nat) : Int)
+    simpa using this
+  rw [hd]
+  have hp := dim_pos (1970 + M / 12) ((M % 12).toNat + 1)
+  have hne : (((dim (1970 + M / 12) ((M % 12).toNat + 1) : Nat) : Int) == 0) = false := by
+    simp; omega
+  simp only [hne, Int.toNat_natCast, yearOf, monthOf]
+  rfl
+
+/-- fractional final lag `M + f`, `0 < f < 1`, `M ≥ 0` -/
+theorem addMonthsLag_frac (M : Int) (f : Rat) (hM : 0 ≤ M) (h0 : 0 < f) (h1 : f < 1) :
+    addMonthsLag ((M : Rat) + f) =
+      (let day := roundHalfEven (f * (dim (yearOf M) (monthOf M) : Rat))
+       if day == 0 then (Date.mk (yearOf M) (monthOf M) 1).pred else ⟨yearOf M, monthOf M, day.toNat⟩) := by
+  have hfl : ((M : Rat) + f).floor = M := floor_int_add M f (le_of_lt h0) h1
+  have hnn : (0 : Rat) ≤ (M : Rat) + f := by
+    have : (0 : Rat) ≤ (M : Rat) := by exact_mod_cast hM
+    linarith
+  have hfr : (M : Rat) + f - ((M : Int) : Rat) = f := by ring
+  have hne : (f == 0) = false := by simp; exact ne_of_gt h0
+  unfold addMonthsLag
+  simp only [hfl, hfr, hne, truncInt_nonneg hnn, yearOf, monthOf]
+  rfl
+
 end Bermuda
